@@ -52,6 +52,9 @@ func (g cmdGen) script() string {
 		return "( " + h + " ) ; echo done-{{.s}}"
 	case "silent":
 		return "true"
+	case "reopen":
+		// an external process that opens /dev/stdout and /dev/stderr again (what many tools do for "-o /dev/stdout")
+		return `sh -c 'printf "re-{{.s}}-` + g.lit + `" > /dev/stdout; printf "ree-{{.s}}" > /dev/stderr'`
 	case "bg":
 		// an external command that leaves a descendant behind which keeps writing after its parent has exited
 		return `bash -c '( sleep 2.4; printf "late-{{.s}}-` + g.lit + `"; printf "lateerr-{{.s}}" >&2 ) & printf "early-{{.s}}."'`
@@ -74,6 +77,8 @@ func (g cmdGen) expect(s int) []Chunk {
 		return append(hc(), Chunk{1, []byte(fmt.Sprintf("done-%d\n", s))})
 	case "silent":
 		return nil
+	case "reopen":
+		return []Chunk{{1, []byte(fmt.Sprintf("re-%d-%s", s, g.lit))}, {2, []byte(fmt.Sprintf("ree-%d", s))}}
 	case "bg":
 		return []Chunk{{1, []byte(fmt.Sprintf("early-%d.", s))}, {1, []byte(fmt.Sprintf("late-%d-%s", s, g.lit))}, {2, []byte(fmt.Sprintf("lateerr-%d", s))}}
 	}
@@ -140,7 +145,7 @@ func logMode(seed uint64, rounds int) {
 				}
 				nc := 1 + r.Intn(4)
 				for c := 0; c < nc; c++ {
-					kinds := []string{"helper", "helper", "pipe", "seq", "builtin", "subshell", "silent"}
+					kinds := []string{"helper", "helper", "pipe", "seq", "builtin", "subshell", "silent", "reopen"}
 					g := cmdGen{kind: kinds[r.Intn(len(kinds))], k: k, lit: fmt.Sprintf("L%d", k)}
 					k++
 					switch {
